@@ -143,7 +143,7 @@ SHAPE_DEFAULTS = {
     "inPlaceShape": True, "streamingPatches": True, "viewResponsePatches": True, "buildShape": True,
     "stampShape": True, "echoShape": True, "errorLikeShape": True, "errorUnstampedShape": True,
     "serverEchoCall": True, "asyncServerEchoCalls": True,
-    "wsServerParser": "exact", "wsClientParser": "exact", "serverReadArms": True, "asyncReadTimeoutCloses": True, "clientReadLoopEnds": True,
+    "wsServerParser": "exact", "wsClientParser": "exact", "serverReadArms": True, "asyncReadTimeoutCloses": True, "clientReadLoopEnds": True, "asyncClientReadLoopEnds": True, "wsClientReadLoopPlain": True, "sliceWritersSetBeve": True,
     "readShape": True, "asyncReadShape": True, "readIntoShape": True, "asyncReadIntoShape": True, "readExactShape": True,
 }
 
@@ -428,6 +428,40 @@ def shapes(facts):
         return {"clientReadLoopEnds": arms == "Ok(message) => message, Err(err) => { fail_all_pending(&inner, err); break; }"}
     group(facts, ["clientReadLoopEnds"], g_client_loop)
 
+    # the async client's response loop: `select!` with exactly two arms — the shutdown signal (break) and the frame read
+    # (every error fails the pending calls and breaks).  Any further arm (a timer, a sleep, a timeout) drops the in-progress,
+    # non-resumable `read_message_async` when it fires; a `continue` anywhere before the dispatch re-reads at whatever
+    # position the stream is in.  Both are the danger itself: pessimistic.
+    def g_async_client_loop():
+        cl = " ".join(fn_body(test_mod_remove(strip(read("src/async_client.rs"))), "spawn_response_loop").split())
+        m = re.search(r"let response = tokio::select! \{(.*?)\}; let dispatch", cl)
+        if not m: raise ExtractError("async client response loop: select! not found")
+        arms = " ".join(m.group(1).split())
+        want = ("_ = &mut shutdown_rx => { break; } read = read_message_async(&mut reader) => { match read { Ok(message) => message, "
+                "Err(err) => { fail_all_pending(&inner, err).await; break; } } }")
+        return {"asyncClientReadLoopEnds": arms == want}
+    group(facts, ["asyncClientReadLoopEnds"], g_async_client_loop)
+
+    # the WebSocket client's loop reads whole messages (`reader.next().await`); the transport keeps message boundaries, so the
+    # only thing to pin is that the read is not raced against a timer either (a dropped `next()` is cancel-safe in tungstenite,
+    # but a loop that gives up a message half-way would not be)
+    def g_ws_client_loop():
+        cl = " ".join(fn_body(test_mod_remove(strip(read("src/websocket_client.rs"))), "spawn_response_loop").split())
+        plain = "match reader.next().await {" in cl and not re.search(r"select!|timeout\(|sleep\(|interval\(", cl)
+        return {"wsClientReadLoopPlain": bool(plain)}
+    group(facts, ["wsClientReadLoopPlain"], g_ws_client_loop)
+
+    # the streamed slice writers set the body format unconditionally (documented: "`header.body_format` is set to Beve")
+    def g_slice_writers():
+        ok = True
+        for fn, size, wr in (("write_message_typed_slice", "typed_slice_size", "to_writer_typed_slice"),
+                             ("write_message_complex_slice", "complex_slice_size", "to_writer_complex_slice")):
+            st = [" ".join(x.split()) for x in statements2(fn_body(io_src, fn))]
+            ok = ok and st == ["header.body_format = crate::constants::BodyFormat::Beve as u16;", f"let body_len = beve::{size}(slice);",
+                               f"write_message_streaming(w, header, query, body_len, |w| {{ beve::{wr}(w, slice) }})"]
+        return {"sliceWritersSetBeve": bool(ok)}
+    group(facts, ["sliceWritersSetBeve"], g_slice_writers)
+
     # ---- stream readers, statement by statement
     def g_readers():
         def norm(body): return [" ".join(x.split()) for x in statements2(body)]
@@ -487,7 +521,7 @@ def render(f):
         L.append(f"def {k} : List Part := {lst(f[k])}")
     for k in ("decodeReturnsParsed", "sliceBoundsExact", "viewBoundsExact", "messageNewShape", "inPlaceShape", "streamingPatches", "viewResponsePatches",
               "buildShape", "stampShape", "echoShape", "errorLikeShape", "errorUnstampedShape", "serverEchoCall", "asyncServerEchoCalls",
-              "readShape", "asyncReadShape", "readIntoShape", "asyncReadIntoShape", "readExactShape", "serverReadArms", "asyncReadTimeoutCloses", "clientReadLoopEnds"):
+              "readShape", "asyncReadShape", "readIntoShape", "asyncReadIntoShape", "readExactShape", "serverReadArms", "asyncReadTimeoutCloses", "clientReadLoopEnds", "asyncClientReadLoopEnds", "wsClientReadLoopPlain", "sliceWritersSetBeve"):
         L.append(f"def {k} : Bool := {'true' if f[k] else 'false'}")
     for k in ("wsServerParser", "wsClientParser"):
         L.append(f"def {k} : ParserKind := .{f[k]}")
